@@ -95,16 +95,29 @@ func (i *Interface) flushWriteCache(percentThreshold int) {
 		return
 	}
 
-	// Write the full cache in a batch operation.
-	batchPut := i.PutMany(i.options.DelayCachedWrites)
+	// Write the full cache in a batch operation. The interface options were
+	// already applied when the records were put, so the records go to the
+	// database as they are: applying the options again would stamp them with
+	// the time of the flush and extend relative expiries.
+	db, err := getController(i.options.DelayCachedWrites)
+	if err != nil {
+		log.Warningf("database: failed to flush write cache to %q database: %s", i.options.DelayCachedWrites, err)
+		return
+	}
+	batch, errs := db.PutMany()
+writeLoop:
 	for _, r := range i.writeCache {
-		err := batchPut(r)
-		if err != nil {
-			log.Warningf("database: failed to write write-cached entry to %q database: %s", i.options.DelayCachedWrites, err)
+		select {
+		case batch <- r:
+		case err = <-errs:
+			break writeLoop
 		}
 	}
 	// Finish batch.
-	err := batchPut(nil)
+	close(batch)
+	if err == nil {
+		err = <-errs
+	}
 	if err != nil {
 		log.Warningf("database: failed to finish flushing write cache to %q database: %s", i.options.DelayCachedWrites, err)
 	}
